@@ -165,6 +165,11 @@ class Env(object):
         """a >= 0 on the whole admissible domain (e.g. a principal minor of a covariance matrix)"""
         self.obls.append(Obl("nonneg", name, a, None, meta))
 
+    def holds(self, name, cond, **meta):
+        """a comparison of terms (the SB the code's own `<`, `>` produce) holds on every input of this path; lowered exactly
+        like the path condition, so that facts the code itself branched on are found syntactically"""
+        self.obls.append(Obl("holds", name, cond, None, meta))
+
     def finite(self, name, value, **meta):
         """every division, root and logarithm inside the term(s) `value` is defined (non-zero denominator,
         non-negative radicand, positive log argument) on this path  =>  the output is a finite real"""
@@ -382,6 +387,19 @@ def run_symbolic(h, mods, cfg, timeout_ms=20000, max_paths=64, label=""):
                     if mm is None:
                         vm, dtm, mm, _ = solve(base_f, timeout_ms, want_model=True)
                     mv = model_values(mm, names + ["EPS"]) if mm is not None else {}
+                    rec["model"] = {k: str(val) for k, val in mv.items()}
+                    rec["model_float"] = {k: float(val) for k, val in mv.items()}
+                recs.append(rec)
+                continue
+            if ob.kind == "holds":
+                zc = z3.simplify(ob.got.z) if isinstance(ob.got, sym.SB) else z3.BoolVal(bool(ob.got))    # same canonical form as SB.__bool__ gives the path condition
+                cons = list(ex.assume) + list(ex.low.side) + ex.path_constraints() + ex.low.congruence() + [z3.Not(zc)]
+                from .lower import solve_linear_first
+                v, dt, m, s, ph = solve_linear_first(cons, timeout_ms, want_model=True)
+                t_solver += dt
+                rec = Record(kind="holds", name=label + "/" + ob.name, path=pid, verdict=v, t=round(dt, 4), size=1, trivial=False, phase=ph)
+                if v == "sat":
+                    mv = model_values(m, names + ["EPS"])
                     rec["model"] = {k: str(val) for k, val in mv.items()}
                     rec["model_float"] = {k: float(val) for k, val in mv.items()}
                 recs.append(rec)
@@ -623,6 +641,8 @@ def replay_obligation(h, mods, cfg, values, obl_name, rtol=1e-6):
     ob = obs[0]
     if ob.kind == "fact":
         return dict(confirmed=not ob.got, detail=ob.meta.get("detail"))
+    if ob.kind == "holds":
+        return dict(confirmed=not bool(ob.got), detail="condition evaluated to %r on the unmodified code" % bool(ob.got))
     if ob.kind == "nonneg":
         a = _f(ob.got)
         return dict(confirmed=bool(a < -1e-12 * (1 + abs(a))), detail="value on the unmodified code: %r" % a)
